@@ -1063,6 +1063,10 @@ CONFIG['C04']['also'] = ['C03', 'C13']   # typed parameters: what the handler ge
 CONFIG['C01']['also'] = ['C09']   # the same dispatch under concurrent requests (shared lookup state) is C09's stream R / -race tier (C01-m7)
 CONFIG['C20']['rule'] += ' TITLE CLAUSE (round 9): on every page of a built-in template (streams M and H) the title shown — the text of the title element, un-escaped once by the harness — must be the title option (API title, or the default when empty): a value escaped twice fails like one not escaped (Spec specUITitle / specHandlerTitle; theorems ui_mw_page_title, handlerUIOpts_title, handler_meets_title_spec).'
 
+# C12 observes the wall clock (deadlines of a few hundred ms): a failing case counts only if it fails again alone
+CONFIG['C12']['wallclock'] = True
+CONFIG['C12']['assumptions'] = CONFIG['C12'].get('assumptions', []) + ['a case whose Spec verdict fails is executed three more times alone; it is reported if any of them fails again, and listed under coverage.not_reproduced otherwise (lateness measured by the wall clock on a loaded machine)']
+
 PENDING = {"C05DA"}   # C05DA is a sub-check of C05 ("also"), never claimed on its own
 NOT_APPLICABLE = {}
 HOOK_COMMITS = ["dd54fd898b621ffdd89b1e68324b7617730e9ca3"]
